@@ -11,7 +11,7 @@ def main():
 
     def body():
         e = 'VerifHarness_C18_Updates'
-        prog, secs = driver.load('poseidon_tree', 'poseidon_tree', HARNESS, [e])
+        prog, secs = driver.load('poseidon_tree', 'poseidon_tree', HARNESS, [e, 'VerifHarness_C18_Deep'])
         run.log('SSA of %d functions built in %.1fs' % (len(prog['funcs']), secs))
         cfgs = [(1, 3), (2, 2), (3, 2)] if not run.thorough else [(1, 4), (2, 3), (3, 3), (4, 2), (5, 2)]
         for depth, ups in cfgs:
@@ -19,7 +19,16 @@ def main():
             label = '%s[depth=%d,updates=%d]' % (e, depth, ups)
             res, ex = driver.run_entry(run, prog, e, stubs.make_stubs(), loop_bound=40, max_paths=100000, label=label)
             run.log(label, run.extra['paths'].get(label), 'solver calls', ex.solver_calls, '%.1fs' % ex.solver_time)
+            nv = len(run.violations)
             driver.report(run, ex, 'poseidon_tree', 'poseidon_tree', HARNESS, e, res, label=label)
+            failing = [r for r in res if r.status in ('assert', 'panic')]
+            if failing and len(run.violations) == nv and not getattr(run, '_deep_done', False):
+                # not reproduced at this size with these draws: the same assertions on depths 1..32 natively (sparse reference)
+                run._deep_done = True
+                failed, panicked, out = driver.replay_native('poseidon_tree', 'poseidon_tree', HARNESS, 'VerifHarness_C18_Deep', {}, timeout=1200)
+                if failed or panicked:
+                    run.violation('%s: native run over depths 1..32 fails: %s' % (label, sorted(set(failed))[:3] or 'panic'),
+                                  {'harness': 'VerifHarness_C18_Deep', 'native_failed': sorted(set(failed)), 'native_output_tail': out[-1200:]}, key='C18:deep')
         run.assumptions += sorted(stubs.USED) + ['Poseidon uninterpreted: roots are equal for every hash function iff the hashed trees are identical terms',
                                                   'depth/updates in %s; indices and values symbolic (repeated indices, writing 0, first/last leaf included)' % (cfgs,)]
         run.samples = run.obls[:4]
